@@ -22,6 +22,7 @@
 #include <iostream>
 #include <limits>
 #include <memory>
+#include <mutex>
 #include <sstream>
 #include <stdexcept>
 
@@ -53,6 +54,9 @@ namespace bxdecay0 {
     int count                    = 0;
     int status                   = 0;
     BXDECAY0_VERIF_YIELD("gauss:pre_save");
+    // The GSL error handler is process-wide: the save/off ... restore section must not interleave between threads
+    static std::mutex gsl_eh_mutex;
+    std::unique_lock<std::mutex> gsl_eh_lock(gsl_eh_mutex);
     gsl_error_handler_t * gsl_eh = gsl_set_error_handler_off();
     BXDECAY0_VERIF_YIELD("gauss:post_save");
     while (true) {
@@ -91,6 +95,7 @@ namespace bxdecay0 {
     }
     BXDECAY0_VERIF_YIELD("gauss:post_integrate");
     gsl_set_error_handler(gsl_eh);
+    gsl_eh_lock.unlock();
     BXDECAY0_VERIF_YIELD("gauss:post_restore");
     if (status != 0) {
       std::ostringstream message;
